@@ -11,14 +11,17 @@ MANIFEST = dict(
           "(the last duplicate survives); Index/LastIndex/IndexAll/Find/FindAll/FilterMap/Map/Reverse/ReverseSelf/FilterDelete/"
           "Max/Min/Sum equal the obvious List definitions and their explicit indexing never panics (Max/Min panic exactly on the empty "
           "slice, the documented precondition); Add/Delete are insertIdx/eraseIdx inside the range and the index error (never a panic) "
-          "outside, with the exact in-place effect on the argument; FindAll is never nil; slice.ToMapV and mapx.ToMap bind every key to "
+          "outside, with the exact in-place effect on the argument (the specification-level clause: after a successful Add the argument is "
+          "unchanged unless the result lives in the argument's own backing array, Spec.addArgOk); FindAll is never nil; slice.ToMapV and mapx.ToMap bind every key to "
           "its last value, report nil/length mismatch as errors and never panic; ToMap∘KeysValues and KeysValues∘ToMap, "
           "SplitPairs∘NewPairs, NewPairs∘SplitPairs, PackPairs∘FlattenPairs are identities; PackPairs never index-panics. "
           "The Boolean specification used as the violation oracle is proved equivalent to the model's acceptance for map-valued results. "
           "Every run executes the real functions on all pairs of slices over a 3-letter alphabet up to length 3 (4 in the thorough tier), "
           "every index in [-1,len+1], predicate/equality/callback families over ints and strings, nil/empty shapes and random slices, "
           "with a capacity-window mutation probe on every argument (also of failing Add/Delete calls and of PackPairs; the spare slots beyond "
-          "len of the in-place functions), a result/argument backing-array overlap probe on every non-in-place function that returns a "
+          "len of the in-place functions; after a successful Add the argument as seen by the caller, its whole capacity window and whether the "
+          "result shares its array, judged by the specification too), two Adds derived from one base slice for every pair of indices and "
+          "every amount of spare capacity (second result, first result read again), a result/argument backing-array overlap probe on every non-in-place function that returns a "
           "slice, and the compiled Lean model accepts or rejects each observed call."),
     note=COMMON_NOTE + (" Go map iteration order is an oracle (results compared up to permutation); append growth capacity of slice.Add is an "
                         "oracle constrained by cap>=len; argument non-modification of the read-only functions holds by construction in the "
